@@ -357,7 +357,10 @@ def r4(ctx):
     rm = f.body(M + "run_migration")
     ctx.touch(*f.scope(rm.path, prefix="store::fs::migrations::"))
     MO = M + "MigrateOutcome"
-    for label, outcome in (("Execute", E.Ok(E.variant(f, MO, "Execute", E.Int(3)))), ("Skip", E.Ok(E.variant(f, MO, "Skip"))), ("Err", E.Err(E.Tok("migration-error")))):
+    for label, outcome in (("Execute", E.Ok(E.variant(f, MO, "Execute", E.Int(3)))), ("Execute(0)", E.Ok(E.variant(f, MO, "Execute", E.Int(0)))),
+                           ("Skip", E.Ok(E.variant(f, MO, "Skip"))), ("Err", E.Err(E.Tok("migration-error")))):
+        # (a migration that reports Execute has changed the database - a table created, a table deleted - whatever row count it
+        # reports: its transaction is committed)
         log = []
 
         def oracle(kind, name, payload, site, outcome=outcome):
@@ -379,7 +382,7 @@ def r4(ctx):
             got = E.describe(ret, f)
         except E.Unsupported as e:
             got = "UNSUPPORTED-FORM: %s" % e
-        want_log = ["migrate", "commit"] if label == "Execute" else ["migrate"]
+        want_log = ["migrate", "commit"] if label.startswith("Execute") else ["migrate"]
         okr = got.startswith("Err") if label == "Err" else got == "Ok(())"
         ctx.check(okr and log == want_log, "C18.R4", rm.path, "commit-iff-Execute[%s]" % label, "migration returns %s: run_migration returns %s after %s (spec: the transaction is committed exactly when the migration executed)" % (label, got, log), rm.sp)
     ctx.floor("C18.R4", 8)
